@@ -182,8 +182,10 @@ def comp (input implOut : Sexp) : Option Verdict := do
     let steps ← ss.mapM EStep.parse?
     let f := fOf tab
     let (res, pm, recs) := runConfig f reg steps
+    -- the counter only exists if some `PopulationEvaluator::init` inserted it
+    let hasEval := steps.any fun s => match s with | .eval _ => true | _ => false
     let model := Sexp.list [resSexp res, .list (.atom "evs" :: recs.map (EvRec.toSexp par)),
-                            finalSexp (some pm.evals) pm.calls.length pm.stack]
+                            finalSexp (if hasEval then some pm.evals else none) pm.calls.length pm.stack]
     let io ← ImplOut.parse? implOut
     let implCanon := Sexp.list [.list [.atom "res", io.res], .list (.atom "evs" :: io.recs.map (EvRec.toSexp par)),
                                 finalSexp io.evals io.ncalls io.stack]
@@ -198,7 +200,8 @@ def comp (input implOut : Sexp) : Option Verdict := do
       else
         let c := holdsSteps f steps [] 0 io.recs
         if c != "-" then c
-        else if io.evals != some io.ncalls then "count" else "-"
+        else if hasEval && io.evals != some io.ncalls then "count"
+        else if !hasEval && io.ncalls != 0 then "count" else "-"
     pure { agree, holds := cls == "-", cls, model }
   | _ => none
 
